@@ -41,6 +41,13 @@ def _job(args):
     from symx import harness as HN
     mod = _load(pid)
     hdef = {h.name: h for h in mod.HARNESSES}[hname]
+    # watchdog: a job that is still running long after its time budget is stuck inside a native call
+    # that ignores the interrupt; dump where, and end the worker (the runner re-runs the job once and
+    # then reports it as inconclusive) instead of hanging the check
+    import faulthandler
+    budget = float(os.environ.get("VERIF_JOB_BUDGET_S", "480" if tier == "quick" else "3000"))
+    limit = float(os.environ.get("VERIF_JOB_HARD_LIMIT_S", str(1.5 * budget + 180)))
+    faulthandler.dump_traceback_later(limit, exit=True)
     try:
         st = HN.run_job(hdef, case, tier=tier, seed=seed)
     except BaseException as ex:  # noqa: BLE001
@@ -52,6 +59,8 @@ def _job(args):
             "queries": 0, "bound_hit": False, "vacuity_sat": 0, "validated_points": 0,
             "samples": [], "assumptions": [], "distinct": [], "wall_s": 0.0,
             "lifted_constants": 0}
+    finally:
+        faulthandler.cancel_dump_traceback_later()
     return st
 
 
